@@ -733,43 +733,43 @@ def callerTarget (st : St) : Caller → Option Addr
     | _ => none
   | _ => none
 
-/-- the slice `w` (if it is one) is over a backing array that is not library-owned -/
-def sliceWritable (m : Mem) : Word → Bool
-  | .slice arr _ _ _ => !frozenObj m arr
+/-- the slice `w` (if it is one) is over a backing array owned by `o` -/
+def sliceOwned (m : Mem) (o : Owner) : Word → Bool
+  | .slice arr _ _ _ => ownerOf m arr == some o
   | _ => true
 
-/-- the storage a helper-set method writes — the bucket map at `a` and its bucket
-arrays — is not library-owned -/
-def setWritable (m : Mem) (a : Addr) : Bool :=
-  !frozenObj m a && match kvsOf m a with
-    | some kvs => kvs.all fun kv => sliceWritable m kv.2
+/-- `a` is the bucket map of a helper set in order: `helper`-owned, and every
+bucket is a slice over an array tagged as a bucket of this very map -/
+def setOwned (m : Mem) (a : Addr) : Bool :=
+  ownerOf m a == some .helper && match kvsOf m a with
+    | some kvs => kvs.all fun kv => sliceOwned m (.bucket a) kv.2
     | none => true
 
-/-- the path buffers of a running walk are not library-owned -/
-def walkerWritable (m : Mem) (wk : Walker) : Bool :=
+/-- the path buffers of a running walk are still the walk's (`scratch`-owned) -/
+def walkerOwned (m : Mem) (wk : Walker) : Bool :=
   (match wk.pending with
-    | some (p, _) => sliceWritable m p
-    | none => true) && wk.frames.all fun fr => sliceWritable m fr.path
+    | some (p, _) => sliceOwned m .scratch p
+    | none => true) && wk.frames.all fun fr => sliceOwned m .scratch fr.path
 
 /-- does the step respect the documented ownership rules?
 * a caller action writes only an object the caller still owns;
 * `PathSet.Add` / `cty.Tuple` are not handed a slice the library is still writing
   (a walk's path buffer) — copy it first, as the documentation of `Walk` says;
-* the receiver of a mutating helper-set method is a helper set (its storage is not
-  library-owned), and a walk's path buffer has not been given away.
-The last item is never violated by a history that starts from the empty state
-(`C20.receivers_writable`); it is a hypothesis only so that the frame theorems hold
-from ANY state. -/
+* the receiver of a mutating helper-set method is a helper set in order
+  (`setOwned`), and a walk's path buffers are still the walk's (`walkerOwned`).
+The last item is never violated by a history that starts from the empty state and
+respects the first two (`C20.receivers_in_order`); it is a hypothesis only so that
+the frame theorems hold from ANY state. -/
 def respectful (st : St) : HeapOp → Bool
   | .caller c => match callerTarget st c with
     | some a => ownerOf st.mem a == some .caller
     | none => true
   | .api (.vsAdd g _ _) | .api (.vsRemove g _ _) => match st.go g with
-    | some (.pair _ (.set a)) => setWritable st.mem a
+    | some (.pair _ (.set a)) => setOwned st.mem a
     | _ => true
   | .api (.psAdd g p _) =>
     (match st.go g with
-      | some (.set a) => setWritable st.mem a
+      | some (.set a) => setOwned st.mem a
       | _ => true) &&
     (match st.go p with
       | some (.slice arr _ _ _) => ownerOf st.mem arr == some .caller || frozenObj st.mem arr
@@ -778,9 +778,49 @@ def respectful (st : St) : HeapOp → Bool
     | some (.slice arr _ _ _) => ownerOf st.mem arr == some .caller || frozenObj st.mem arr
     | _ => true
   | .api (.walkNext w) => match st.wks[w]? with
-    | some wk => walkerWritable st.mem wk
+    | some wk => walkerOwned st.mem wk
     | none => true
   | .api _ => true
+
+/-- the objects of the current heap a step may write in place or take ownership of
+(`C20.step_writes_only`): the target of a caller action; the big.Float / slice a
+documented transfer hands over; the bucket map and bucket arrays of the receiver of
+a mutating helper-set method; the path buffers of walks.  Everything else a step
+touches is freshly allocated. -/
+def wset (st : St) (op : HeapOp) (x : Addr) : Bool :=
+  match op with
+  | .caller c => callerTarget st c == some x
+  | .api (.numberVal g) => st.go g == some (.num x) && ownerOf st.mem x == some .caller
+  | .api (.tupleType g) => match st.go g with
+    | some (.slice arr _ _ _) => arr == x && ownerOf st.mem x == some .caller
+    | _ => false
+  | .api (.vsAdd g _ _) | .api (.vsRemove g _ _) => match st.go g with
+    | some (.pair _ (.set a)) => x == a || ownerOf st.mem x == some (.bucket a)
+    | _ => false
+  | .api (.psAdd g p _) =>
+    (match st.go g with
+      | some (.set a) => x == a || ownerOf st.mem x == some (.bucket a)
+      | _ => false) ||
+    (match st.go p with
+      | some (.slice arr _ _ _) => arr == x && ownerOf st.mem x == some .caller
+      | _ => false)
+  | .api (.walkNext _) => ownerOf st.mem x == some .scratch
+  | .api _ => false
+
+/-- the helper set a step mutates through its own methods (Add / Remove), if any -/
+def receiver (st : St) : HeapOp → Option Addr
+  | .api (.vsAdd g _ _) | .api (.vsRemove g _ _) => match st.go g with
+    | some (.pair _ (.set a)) => some a
+    | _ => none
+  | .api (.psAdd g _ _) => match st.go g with
+    | some (.set a) => some a
+    | _ => none
+  | _ => none
+
+/-- no step of the history is a mutating method call on the helper set at `a` -/
+def notReceiver (a : Addr) : St → List HeapOp → Bool
+  | _, [] => true
+  | st, op :: ops => receiver st op != some a && notReceiver a ((step st op).getD st) ops
 
 /-- every step of the history respects the ownership rules in the state it runs in -/
 def respectfulRun : St → List HeapOp → Bool
